@@ -202,12 +202,16 @@ def check_instance(payload, K, st: Stats, doc_skip=False, collect=None):
         s.push()
         s.add(a != b)
         tq = time.time()
-        r = z3_check(s, st, 300000)
+        r = z3_check(s, st, 120000)
+        m = s.model() if r == "sat" else None
+        if r == "unknown":
+            # finite-domain case split (still the solver's verdict): fix the first two trip counts
+            # to each of their K*K values; unsat everywhere = unsat, a model anywhere = sat
+            r, m = split_check(s, list(nvar.values())[:2], K, st)
         count_obligation(st, r, label + d)
         if collect is not None:
             collect.append((label, d, r, time.time() - tq))
         if r == "sat":
-            m = s.model()
             trips = {i: int(model_value(m, v)) for i, v in nvar.items()}
             costs = {n: model_value(m, v) for n, v in tr.env.items() if not n.startswith("n")}
             viol.append(("count", d, trips, costs))
@@ -234,6 +238,23 @@ def check_instance(payload, K, st: Stats, doc_skip=False, collect=None):
     if not out:
         out = validate_concrete(payload, K, st, rng)
     return [v for v in out if v is not None]
+
+
+def split_check(s, vs, K, st):
+    import itertools
+    st.extra["case_splits"] = st.extra.get("case_splits", 0) + 1
+    verdict = "unsat"
+    for vals in itertools.product(range(1, K + 1), repeat=len(vs)):
+        s.push()
+        s.add([v == x for v, x in zip(vs, vals)])
+        r = z3_check(s, st, 120000)
+        m = s.model() if r == "sat" else None
+        s.pop()
+        if r == "sat":
+            return "sat", m
+        if r != "unsat":
+            verdict = "unknown"
+    return verdict, None
 
 
 # ---------------------------------------------------------------------------------------------------------
